@@ -59,6 +59,27 @@ fn gen_a(r: &mut Rng, out: &mut String, g: &stream::GenStream) {
 }
 
 pub fn gen_case(r: &mut Rng, out: &mut String) {
+    if r.chance(1, 5) {
+        // both operands from the shared catalogue (gen/zoo.rs): the serialized one is a variation of the in-memory one (or
+        // an independent value), written by the harness's encoder with run / array / bitset chunks
+        let t = super::zoo::zoo_build(r, out, "b0");
+        let t2 = super::zoo::vary(r, &t);
+        let bytes = super::zoo::stream_of(r, &t2);
+        let h = hex(&bytes);
+        writeln!(out, "dump b0").unwrap();
+        writeln!(out, "new b1").unwrap();
+        writeln!(out, "inter_ser b1 b0 {}", h).unwrap();
+        writeln!(out, "dump b1").unwrap();
+        writeln!(out, "dump b0").unwrap();
+        for k in [bytes.len() / 2, bytes.len().saturating_sub(1), 5] {
+            if k < bytes.len() {
+                writeln!(out, "new b3").unwrap();
+                writeln!(out, "inter_ser_trunc b3 b0 {} {}", k, h).unwrap();
+                writeln!(out, "dump b3").unwrap();
+            }
+        }
+        return;
+    }
     let small = r.chance(3, 4);
     let g = stream::gen_stream(r, small);
     let h = hex(&g.bytes);
